@@ -1608,10 +1608,35 @@ func (*Context).LoadName
   noverify
   ensures result == nil ==> ctx.Error != nil
 
+// LoadNameWithDetail: a pre-load hook that returns the same name and no overwrite changes nothing: every lookup
+// (local chain, then global) uses the caller's name, raw flag and detail span; an overwrite short-circuits (C17).
 func (*Context).LoadNameWithDetail
-  props C01
+  props C17 C01
+  requires ctx != nil
+  ghost var hookName string = ""
+  ghost var hookOver *VMValue = nil
+  ghost var hookCalls int = 0
+  ghost var lookups int = 0
+  ghost at call 1 HookValueLoadPre: hookCalls = hookCalls + 1; hookName = ret0; hookOver = ret1
+  ghost at precall 1 curCtx.LoadNameLocalWithDetail: lookups = lookups + 1; ghostAssert(hookCalls == 0 ==> arg0 == old(name)); ghostAssert(hookCalls == 1 ==> arg0 == hookName); ghostAssert(arg1 == isRaw && arg2 == detail)
+  ghost at precall 1 ctx.LoadNameGlobalWithDetail: ghostAssert(hookCalls == 0 ==> arg0 == old(name)); ghostAssert(hookCalls == 1 ==> arg0 == hookName); ghostAssert(arg1 == isRaw && arg2 == detail)
+  ensures [C17] !useHook ==> hookCalls == 0
+  ensures [C17] hookCalls <= 1
+  ensures [C17] hookCalls == 1 && hookOver != nil ==> result == hookOver && lookups == 0
+  ensures result == nil ==> ctx.Error != nil
+  loop 1
+    invariant curCtx != nil && ctx != nil && (hookCalls == 0 ==> name == old(name)) && (hookCalls == 1 ==> name == hookName) && hookCalls <= 1
+
+func (*Context).LoadNameLocalWithDetail
+  props C17 C01
+  noverify
+  ensures ctx.Error == nil ==> result != nil && wfValue(result)
+
+func (*Context).LoadNameGlobalWithDetail
+  props C17 C01
   noverify
   ensures result == nil ==> ctx.Error != nil
+  ensures result != nil ==> wfValue(result)
 
 // ---- lemmas (raw SMT-LIB, proved on every run; expected answer: unsat) ----
 
